@@ -433,7 +433,7 @@ def run_histories(ctx, hs):
 
 def run(ctx):
     rng = ctx.rng
-    n = 300 if ctx.tier == 'quick' else 6000
+    n = 220 if ctx.tier == 'quick' else 6000
     ctx.cov['rule'] = ('one fresh Python process per history: 2-5 application base classes (ITCH/OUCH/SQF, generated style; plain style '
                        'and explicit app_name only in "mixed" histories) + 4-24 message class statements with ids drawn from a small '
                        'pool, in random order; then all 256 id bytes through every base class and the 3 protocol-level classes, '
